@@ -75,6 +75,8 @@ func (H) Generate(prop, tier string, seed uint64) *simkit.Plan {
 		return genC10(tier, seed)
 	case "C09":
 		return genC09(tier, seed)
+	case "C07":
+		return genC07(tier, seed)
 	}
 	panic("clustersim: no generator for " + prop)
 }
@@ -90,6 +92,8 @@ func (H) Execute(t *testing.T, plan *simkit.Plan, run *simkit.Run) {
 		execC10(plan, run)
 	case "C09":
 		execC09(plan, run)
+	case "C07":
+		execC07(plan, run)
 	default:
 		panic("clustersim: no executor for " + plan.Property)
 	}
